@@ -302,6 +302,19 @@ package wkb
 //@     invariant [prefix] forall i int :: i < old(ghost(w, "n")) ==> ghostAt(w, "tok", i) == old(ghostAt(w, "tok", i))
 //@     invariant [length_token] u32At(objOf(w), old(ghost(w, "n")), orderCode(byteOrder), len(geometryCollection))
 
+// The codec as functions (used by package hex): Encode's bytes depend only on the geometry value and
+// the byte order, Decode's results only on the bytes (definitional abstraction, assumed: both are
+// deterministic and read nothing else).
+//@ spec wkbEnc(g geom.Geom, order int) int
+//@ spec wkbDecG(bytes int) geom.Geom
+//@ spec wkbDecE(bytes int) error
+
+//@ func Decode
+//@   prop C05, C07
+//@   mode ufloat
+//@   ensures_assumed [function_of_the_bytes] result0 == wkbDecG(bytesId(buf)) && result1 == wkbDecE(bytesId(buf))
+//@   modifies nothing
+
 //@ func Encode
 //@   prop C05
 //@   mode ufloat
@@ -309,5 +322,6 @@ package wkb
 //@   requires [sizes] sizesFit(g)
 //@   ensures [error_no_bytes] result1 != nil ==> len(result0) == 0
 //@   ensures [count] result1 == nil && typeof(g) != geom.GeometryCollection ==> ghost(result0, "n") == encLen(g)
-//@   ensures [layout] result1 == nil ==> encAt(objOf(w), 0, orderCode(byteOrder), g)
-//@   ensures [returned_bytes_are_the_buffer] result1 == nil ==> (forall i int :: ghostAt(result0, "tok", i) == ghostAtO(objOf(w), "tok", i))
+//@   ensures_local [layout] result1 == nil ==> encAt(objOf(w), 0, orderCode(byteOrder), g)
+//@   ensures_local [returned_bytes_are_the_buffer] result1 == nil ==> (forall i int :: ghostAt(result0, "tok", i) == ghostAtO(objOf(w), "tok", i))
+//@   ensures_assumed [function_of_geometry_and_order] result1 == nil ==> bytesId(result0) == wkbEnc(g, orderCode(byteOrder))
